@@ -20,6 +20,10 @@ PROGRAMS = {
     "rejected": "mov rax, 1\nfoo bar\nret\n",
     "rejected-first": "mov rax, [rbx\nret\n",
     "nofinalnl": "mov rax, 5\nret",
+    # physical lines much longer than their instruction (comment text that reads like code, runs of blanks): a reader with a
+    # fixed line buffer splits them
+    "longlines": "mov eax, 0x2a ;" + " " * 90 + "inc rax\n" + "add rax, 0x1" + " " * 150 + "; " + "x" * 300 + " inc rax\n" +
+                 ";" + "-" * 97 + "\n" + ";" + "-" * 98 + "\n" + ";" + "-" * 99 + " nop\n" + " " * 120 + "ret ; done\n",
     # larger than the library's initial buffer (the code moves while asmline is running)
     "big": "mov rcx, 0x1122334455667788\n" * 700 + "mov rax, 0x1234\nret\n",
 }
@@ -229,7 +233,7 @@ def run(tier, seed):
             combos = []
             for pn, pt in progs:
                 for s in ("file", "stdin"):
-                    combos += [(pn, pt, fs, o, s) for fs in fsets for o in core_out if pn in ("modes", "rejected", "ret42")]
+                    combos += [(pn, pt, fs, o, s) for fs in fsets for o in core_out if pn in ("modes", "rejected", "ret42", "longlines")]
                     combos += [(pn, pt, fs, o, s) for fs in core_fs[:1 if pn == "big" else 3] for o in outs]
             combos = list(dict.fromkeys(combos))
         # every line count: the binary output and the break count from stdin and from FILE
